@@ -58,6 +58,9 @@ def extra(ctx):
         return impl, (o.stdout.split("\n") + [""] * len(cases))[:len(cases)]
 
     def sig_of(i, r):
+        if r.startswith("fail caller-"):
+            # query inside a caller-owned undo frame (cfg `^r` / `^k`): clause + verdict of the query
+            return "oracle:partB:" + ":".join(r.split()[1:3])
         if r.startswith("fail leaked-frames") or r.startswith("fail not-restored") or r.startswith("fail query-panic") \
                 or i.startswith("panic") or not (r.startswith("ok") or r.startswith("fail")):
             return "oracle:partB:" + (r.split()[1] if r.startswith("fail") else "crash")
@@ -76,7 +79,13 @@ def extra(ctx):
     bad = {}
     failing_goal_with_work = 0
     hist = {}
+    caller = {}
     for c, i, r in zip(cases, impl, orc):
+        if r.startswith("ok") and "caller_frame" in r:
+            rs_ = r.split()
+            k = ("rollback" if "caller_rollback" in rs_ else "commit") + ":" + ("provable" if "provable" in rs_ else "notprovable") \
+                + (":derived_facts" if "derived_facts" in rs_ else "")
+            caller[k] = caller.get(k, 0) + 1
         if r.startswith("ok") and "notprovable" in r and "rules_fireable" in r:
             failing_goal_with_work += 1
             for t in ("act_append", "act_retract", "act_call", "or_or_nonEq", "multi_action_rule", "dfs", "bfs", "ids"):
@@ -104,6 +113,7 @@ def extra(ctx):
     cov["partB_cases"] = len(cases)
     cov["partB_failing_goals_with_fireable_rules"] = failing_goal_with_work
     cov["partB_failing_goals_with_fireable_rules_by_tag"] = dict(sorted(hist.items()))
+    cov["partB_caller_frame_cases"] = dict(sorted(caller.items()))
     cov["partB_violations"] = sum(len(v) for v in bad.values())
     return fails, cov
 
@@ -147,7 +157,12 @@ RULE = ("part A: cases = corpus + EVERY sequence of length <= 6 over the alphabe
         "problem under DFS with max_solutions 1, 2, 3 AND 5 (the shared solution list also counts the sub-goals' proofs, so these take "
         "different arms of the candidate loop), at a random depth, under BFS and iterative, and as the positive query with max_solutions > 1: "
         "the verdict `not provable` is reached THROUGH found proofs, each of which must have been rolled back; (4) N_B/10 knowledge bases "
-        "with DISABLED rules (see C09) under every strategy. "
+        "with DISABLED rules (see C09) under every strategy; (5) CALLER-OWNED UNDO FRAME (cfg `^r` / `^k`): the query runs inside a frame the caller "
+        "began on the facts and rolls back / commits afterwards - the search's frames are nested frames of the caller's: N_B/25 constructive chains "
+        "of 1..3 levels whose proof derives facts, overwrites / retracts an existing one and appends, asked provable and not provable (missing seed, "
+        "wrong value, depth cut) under every strategy x max_solutions 1, 3 x {rollback, commit}, and N_B/2 cases sampled from ALL single-query "
+        "families above re-run inside a caller frame; oracle: undo depth 1 after the query and 0 after the close, after the caller's rollback the "
+        "facts equal the initial facts WHATEVER the verdict, after its commit they equal the facts the query handed back. "
         "Oracle (iii), evaluated first: not provable => get_all_facts after == before, undo depth after == 0 whatever the answer; "
         "one failing case per signature is minimised with the harness shrinker.")
 TRUSTED = [
